@@ -169,8 +169,16 @@ def _classify(ob, msgs):
             if 'error' in r:
                 return HARNESS_ERROR, 'replay failed: %r' % r
             raised = r.get('raised', '')
-            if raised.startswith('BudgetExceeded'):
+            if raised.startswith('BudgetExceeded') or \
+                    raised.startswith('RefBudget'):
                 return BOUND, 'tick/input budget exceeded for (%s)' % args
+            if not what.strip().startswith('false'):
+                # obligations never raise by design (host exceptions of the
+                # unit under test are caught and turned into a 0 result),
+                # so an exception is a defect of the harness itself
+                return HARNESS_ERROR, ('harness raised %s for (%s); '
+                                       'native: %s' % (what[:200], args,
+                                                       raised[:200]))
             if r.get('ok'):
                 return HARNESS_ERROR, ('counterexample (%s) [%s] did not '
                                        'reproduce natively: %r'
